@@ -92,3 +92,10 @@ func freeAllC() {
 	}
 	liveCBufs = liveCBufs[:0]
 }
+
+func unsafeSlice[T any](c *cbuf, n int) []T {
+	if n == 0 {
+		return nil
+	}
+	return unsafe.Slice((*T)(c.ptr), n)
+}
